@@ -339,6 +339,14 @@ func (o Bool) Equal(right Object) bool {
 	if v, ok := right.(Uint); ok {
 		return bool((o && v == 1) || (!o && v == 0))
 	}
+
+	if v, ok := right.(Float); ok {
+		return bool((o && v == 1) || (!o && v == 0))
+	}
+
+	if v, ok := right.(Char); ok {
+		return bool((o && v == 1) || (!o && v == 0))
+	}
 	return false
 }
 
